@@ -264,12 +264,6 @@ Proof.
   constructor; [reflexivity|]. constructor; [reflexivity|]. apply Forall_app. split; [exact Hv|]. constructor; [reflexivity|constructor].
 Qed.
 
-Lemma kvs_nil r : kvs r = [] -> pairs_of r = [].
-Proof.
-  destruct r as [ty sn ifc mb pa de ar ap ns]. unfold kvs, pairs_of. cbn.
-  destruct ty, sn, ifc, mb, pa, de, ns, ar, ap; cbn; intros H; try discriminate H; reflexivity.
-Qed.
-
 Lemma join_comp_not_nil l : l <> [] -> join [comma] (map compkv l) <> [].
 Proof.
   destruct l as [|[k v] l]; [contradiction|]. intros _ H. destruct l; cbn in H; unfold compkv, comp in H; cbn in H;
